@@ -104,7 +104,9 @@ LabVariants ==
   >>
 \* (the thorough catalogue widens the location pairs, shapes and splits; TLC caps an enumerated set at 10^6 elements)
 ValsA == {<<1, 2>>}
-ValsB == {<<1, 2>>, <<1, -3>>, <<-1, -2>>, <<0, 0>>, <<3, -3>>}      \* the last one: non-zero values whose sum is zero
+\* <<3, -3>>: non-zero values whose sum is zero.  The thorough catalogue takes every pair of the 29 location variants
+\* and pays with fewer value pairs (the quick one has them all on the 3 base locations): the product stays below 10^6
+ValsB == IF Tier = "quick" THEN {<<1, 2>>, <<1, -3>>, <<-1, -2>>, <<0, 0>>, <<3, -3>>} ELSE {<<1, 2>>, <<1, -3>>, <<3, -3>>}
 
 Hdr0 == [period |-> 1, time |-> 0, dur |-> 0, comments |-> <<>>, dflt |-> "", doc |-> "",
          drop |-> "", keep |-> ""]
@@ -115,7 +117,8 @@ Prof(samples, hdr) == [samples |-> samples, hdr |-> hdr]
 LabPairs == {<<1, lb>> : lb \in DOMAIN LabVariants}
             \cup {<<2, lb>> : lb \in {2, 3, 4, 5, 11}}
             \cup {<<6, lb>> : lb \in {6, 7, 8, 9, 10, 11}}
-            \cup {<<9, lb>> : lb \in {9, 12, 13}} \cup {<<12, 12>>, <<12, 13>>}
+\* per-value units of one numeric label (a separate, smaller product: TLC caps an enumerated set at 10^6 elements)
+LabPairsUnits == {<<9, lb>> : lb \in {9, 12, 13}} \cup {<<12, 12>>, <<12, 13>>}
 Splits == IF Tier = "quick" THEN {1, 2} ELSE {1, 2, 3}
 MkSmp(k, l, v, li) == Smp(Shape(k, l), v, LabVariants[li].lab, LabVariants[li].num)
 PairCasesOf(shapes, bases, variants, valsA, valsB, labPairs, splits) ==
@@ -127,6 +130,7 @@ PairCasesOf(shapes, bases, variants, valsA, valsB, labPairs, splits) ==
                   [] c[7] = 3 -> << Prof(<<a>>, Hdr0), Prof(<<b>>, Hdr0), Prof(<<a>>, Hdr0) >>)] :
       c \in shapes \X bases \X variants \X valsA \X valsB \X labPairs \X splits }
 PairCases == PairCasesOf(Shapes, DOMAIN BaseLocs, DOMAIN VariantLocs, ValsA, ValsB, LabPairs, Splits)
+             \cup PairCasesOf({1, 2}, DOMAIN BaseLocs, DOMAIN VariantLocs, ValsA, {<<1, 2>>, <<1, -3>>}, LabPairsUnits, Splits)
 \* the small catalogue used when a mechanism is deliberately broken (vacuity guard)
 GuardCases == PairCasesOf({1}, DOMAIN BaseLocs, DOMAIN VariantLocs, {<<1, 2>>}, {<<1, 2>>}, {<<1, 1>>}, {2})
 
